@@ -159,7 +159,7 @@ CLAIMS = {
                 'entry sequence and every partition into channel messages (empty messages, end marker) and limit in {0,1,n} that the design equals the definition, is independent of batching, keeps distinct '
                 'label sets distinct and means what the SQL side means by limit. TLC-evaluated cases are replayed into the REAL planned chain (Parse -> Plan -> internal_planner with a scripted upstream) under 3 '
                 'partitions each, and 480 SQL-only vs breakpoint request pairs run end to end through query_range.',
-        'note': 'the code equals its literal transcription on every case; 15 findings repaired by fix: commits (kept in InProc.tla as retired regression classes); open: cross-engine differences (SQL-side label_format ignored without a breakpoint stage; in-process twins of SQL-side repairs, see known_findings.json).',
+        'note': 'the code equals its literal transcription on every case; 15 findings repaired by fix: commits (kept in InProc.tla as retired regression classes); plus the two in-process twins of SQL-side repairs (57933ef, 37a4dd9); message grain and ownership (InProcMem.tla) are part of the model; one open finding: SQL-side label_format is ignored when no breakpoint stage precedes it (lfmt_ren, design decision).',
         'technique': 'TLA+ definition plus mechanism with as-coded switches, exhaustive TLC, replay of TLC-computed expected results into the real chain, e2e cross-engine comparison',
         'design_ref': '5/C09',
     },
@@ -169,7 +169,7 @@ CLAIMS = {
                 '(thorough 5) that the rendered text is exactly one literal decoding to the string. The spec transducers equal the real code on every exported string, and every string of length <= 3 (plus a '
                 'seeded sample) is placed in 167 string positions of the REAL LogQL, Loki, PromQL, TraceQL, Tempo and Pyroscope routes: the SQL handed to the session has the token structure of a harmless '
                 'string and carries the string only in literals decoding to it.',
-        'note': 'oracle: chsql lexer and LIKE rules; the doLike escaping defect (10 signatures) is repaired by fix 5714936: TLC now proves LikeValue on Escape.tla; no open finding.',
+        'note': 'oracle: chsql lexer and LIKE rules; the doLike escaping defect (10 signatures) is repaired by fix 5714936: TLC now proves LikeValue on Escape.tla; the alphabet has 20 classes incl. the backtick (raw-string quote of the query languages), which found f8502d3; no open finding.',
         'technique': 'TLA+/TLC exhaustive check of the escaping transducers + conformance with the code + replay into the real routes with token-level comparison',
         'design_ref': '5/C10',
     },
